@@ -1419,6 +1419,9 @@ impl Backend for GitBackend {
 
         // Update the signature to match the one that was actually written to the object
         // store
+        contents.author.timestamp.timestamp = MillisSinceEpoch(
+            contents.author.timestamp.timestamp.0.div_euclid(1000) * 1000,
+        );
         contents.committer.timestamp.timestamp = MillisSinceEpoch(committer.time.seconds * 1000);
         let mut mut_table = table.start_mutation();
         mut_table.add_entry(id.to_bytes(), extras);
